@@ -48,6 +48,60 @@ func runC02(c *Ctx) {
 			}
 			c.Ob("C02-R1", "pruned side-chain path parks a block only under TD(head) > the total difficulty it stores for the block", c.Position(s.Pos()), okCmp && nst > 0, fmt.Sprintf("%d path states", nst))
 		}
+		// once the side chain wins, the blocks to re-execute are gathered by walking parents back to a block whose state
+		// is available – for every batching of the delivery, not from the current batch (whose first block may itself
+		// sit on pruned ancestors)
+		vcIC := newValueClasses(ic)
+		nWin := 0
+		for _, s := range callSites(ic, `^BlockChain\.insertChain2?$`) {
+			arg := stripConvAll(s.Common().Args[1])
+			okW, nApp, why := true, 0, ""
+			for _, b := range ic.Blocks {
+				for _, ins := range b.Instrs {
+					call, isCall := ins.(*ssa.Call)
+					if !isCall {
+						continue
+					}
+					bi, isB := call.Call.Value.(*ssa.Builtin)
+					if !isB || bi.Name() != "append" || !vcIC.same(call, arg) {
+						continue
+					}
+					nApp++
+					// the appended pack holds parents fetched from the database
+					sl, isSl := call.Call.Args[1].(*ssa.Slice)
+					var al *ssa.Alloc
+					if isSl {
+						al, _ = sl.X.(*ssa.Alloc)
+					}
+					if al == nil {
+						okW, why = false, "appends "+c.termOf(ic, call.Call.Args[1])
+						continue
+					}
+					for _, r := range *al.Referrers() {
+						if ia, isIA := r.(*ssa.IndexAddr); isIA {
+							for _, rr := range *ia.Referrers() {
+								if st, isSt := rr.(*ssa.Store); isSt {
+									for _, l := range phiLeaves(st.Val) {
+										if cl, isC := l.(*ssa.Call); !isC || !strings.HasSuffix(calleeName(&cl.Call), ".GetBlock") {
+											okW, why = false, "appends "+c.termOf(ic, l)
+										}
+									}
+								}
+							}
+						}
+					}
+				}
+			}
+			if nApp == 0 {
+				continue // a retry of the caller's own batch, not the gathered winner chain
+			}
+			nWin++
+			c.Ob("C02-R1", "pruned side-chain path: the chain handed to the re-execution is gathered only from parents fetched from the database", c.Position(s.Pos()), okW, fmt.Sprintf("%d appends %s", nApp, why))
+			c.mustStates("C02-R1", ic, "re-execution of the gathered chain", c.Facts(ic).At(s), []LitReq{
+				{Name: "pruned side-chain path: the parent walk ends only at a block whose state is available", Re: `^BlockChain#0\.HasState\(.*\.Root\(\)\)$`},
+			})
+		}
+		c.Ob("C02-R1", "pruned side-chain path: the re-execution call of the gathered chain found", c.FnPos(ic), nWin == 1, fmt.Sprintf("%d", nWin))
 		wo := c.Fn("core:(*BlockChain).WriteBlockWithoutState")
 		for _, s := range callSites(wo, `^HeaderChain\.WriteTd$`) {
 			a := s.Common().Args
